@@ -63,6 +63,19 @@ const FILE_NAMES: &[&str] = &[
 ];
 const DIR_NAMES: &[&str] = &["sub", "lib", ".git", ".cache", "deep", "dir.typ", "Chapter 1"];
 
+/// Large inputs: erroneous text with a long unterminated last line, long well-formed prose,
+/// long code; with and without a final newline.
+fn big_content(r: &mut Rng) -> String {
+    let n = [1000usize, 1023, 1024, 1500, 4096, 9000, 70000][r.below(7)];
+    match r.below(5) {
+        0 => format!("*strong\n{}", "x".repeat(n)),
+        1 => format!("#let x = (\n{}", "y ".repeat(n / 2)),
+        2 => format!("= Title\n\n{}\n", "word ".repeat(n / 5)),
+        3 => format!("#let   v=({})", "1, ".repeat(n / 3)),
+        _ => format!("{}\ntext ]{}", "ok\n".repeat(3), "z".repeat(n)),
+    }
+}
+
 fn gen_entry(r: &mut Rng, depth: usize) -> Entry {
     let n = if depth == 0 { 2 + r.below(5) } else { r.below(4) };
     let mut es: Vec<(String, Entry)> = vec![];
@@ -85,6 +98,7 @@ fn gen_entry(r: &mut Rng, depth: usize) -> Entry {
                     }
                     Entry::Symlink(target)
                 }
+                2 => Entry::File(big_content(r).into_bytes()),
                 _ => Entry::File(r.pick(CONTENTS).as_bytes().to_vec()),
             }
         };
@@ -131,7 +145,7 @@ pub fn scenario(idx: u64) -> Scenario {
             }
             Cmd::Files(ps)
         }
-        4 => Cmd::Stdin(r.pick(CONTENTS).to_string()),
+        4 => Cmd::Stdin(if r.below(4) == 0 { big_content(&mut r) } else { r.pick(CONTENTS).to_string() }),
         _ => match r.below(6) {
             0 | 1 => Cmd::FormatAll(None),
             2 => Cmd::FormatAll(Some(".".into())),
